@@ -2,10 +2,13 @@
 use crate::fw::{LaneCtx, Verdict};
 use serde_json::Value;
 
+pub mod c01;
+pub mod c02;
 pub mod c04;
 pub mod c05;
 pub mod c06;
 pub mod c09;
+pub mod c11;
 pub mod c12;
 pub mod c13;
 pub mod c15;
@@ -31,10 +34,13 @@ macro_rules! registry {
 }
 
 registry! {
+    "C01" => c01,
+    "C02" => c02,
     "C04" => c04,
     "C05" => c05,
     "C06" => c06,
     "C09" => c09,
+    "C11" => c11,
     "C12" => c12,
     "C13" => c13,
     "C15" => c15,
